@@ -19,7 +19,10 @@ def _mol(data):
     from chmpy.core.molecule import Molecule
     Z = np.array(data["Z"])
     pos = np.array(data["pos"], float).reshape(-1, 3)
-    return Molecule.from_arrays(Z, pos)
+    m = Molecule.from_arrays(Z, pos)
+    if data.get("comment") is not None:
+        m.properties["comment"] = data["comment"]
+    return m
 
 
 def replay_sdf(data):
@@ -396,17 +399,23 @@ def xyz_part(ctx, resp_only):
             text = "\n".join(out)
         els, pos = mx.parse_xyz_string(text)
         return els, pos, dict(tm.reg)
-    for resp in (resp_only,):
+    # the comment line is free text: default (formula), empty, blank, number-like, shaped like an atom line
+    comments = [None, "", "   ", "7", "Cl 1.0 2.0 3.0"]
+    for comment in comments:
+        resp = resp_only
         respell[0] = resp
+        mol.properties.pop("comment", None)
+        if comment is not None:
+            mol.properties["comment"] = comment
         t0 = time.time()
         paths = []
-        for box in boxes:
+        for box in (boxes if comment is None else boxes[:1]):
             ex.base = box
-            paths += ex.run(rt)
+            paths += [(p, comment) for p in ex.run(rt)]
         ctx.add_paths(ex)
         why = None
         n = 0
-        for p in paths:
+        for p, comment in paths:
             feas, mdl = _model(ex, p.pc)
             if not feas:
                 continue
@@ -424,9 +433,9 @@ def xyz_part(ctx, resp_only):
                         if not any(pos[0, k] is r for r in want):
                             why = "coordinate %d not read from its field" % k
             if why:
-                data = {"Z": [17], "pos": [[float(model_value(mdl, P[0, k].t)) for k in range(3)]], "respell": resp}
-                ctx.violation("xyz:%s" % ("respell" if resp else "roundtrip"), "XYZ does not read back (%s)" % why, data, replay_xyz)
+                data = {"Z": [17], "pos": [[float(model_value(mdl, P[0, k].t)) for k in range(3)]], "respell": resp, "comment": comment}
+                ctx.violation("xyz:%s" % ("respell" if resp else "roundtrip"), "XYZ does not read back (%s)%s" % (why, "" if comment is None else " with comment line %r" % comment), data, replay_xyz)
                 break
-        ctx.record("xyz: 1-atom round trip%s on %d sign/digit classes, |x| < 10^%d" % (" with upper-case symbol, tabs and blank runs" if resp else "", n, nd),
+        ctx.record("xyz: 1-atom round trip%s%s on %d sign/digit classes, |x| < 10^%d" % (" with upper-case symbol, tabs and blank runs" if resp else "", "" if comment is None else ", comment line %r" % comment, n, nd),
                    "holds" if why is None else "counterexample", seconds=time.time() - t0, nontrivial=True)
     symtext.install(None)
